@@ -372,8 +372,14 @@ pub fn judge_registry(ctx: &mut Ctx, r: &PortableRegistry, d: &SDesc, seeds: u64
         for s in 0..seeds {
             let seed = ctx.seed.wrapping_mul(977).wrapping_add(s * 31 + id as u64);
             ctx.begin_case(&format!("c14 id {id} seed {seed}"));
+            scale_typegen::verif_hooks::set_budget(Some(20_000_000));
             let got = guard(|| rust_value_from_seed(id, r, &settings, seed, None, None));
+            scale_typegen::verif_hooks::set_budget(None);
             let tokens = match got {
+                Err(p) if p.msg.contains("event budget exceeded") => {
+                    ctx.violation("C14:progress-bound", format!("rust_value_from_seed({id}) did not finish within 2*10^7 hook events"), replay(id, seed));
+                    continue;
+                }
                 Err(p) => {
                     ctx.violation(format!("C14:panic:{}", p.signature()), format!("rust_value_from_seed({id}) panicked: {}", p.msg), replay(id, seed));
                     continue;
